@@ -156,7 +156,8 @@ def gen_sequence(r, fmt, spec, big=0.06):
     dirs = []
     for k in range(n):
         ft = r.choice(spec["types"] + [REG] * 3)
-        d = dict(mode=ft | r.choice([0o644, 0o755, 0o600, 0o7777 & spec.get("permmask", 0o7777), 0o444, 0]), nlink=1)
+        d = dict(mode=ft | (r.choice([0o644, 0o755, 0o600, 0o7777 & spec.get("permmask", 0o7777), 0o444, 0]) if r.random() < 0.5
+                           else r.randrange(0o10000) & spec.get("permmask", 0o7777)), nlink=1)   # every combination of the twelve bits
         if ft == DIR:
             d["mode"] |= 0o100        # directories without search permission are awkward for nothing here; keep x for owner
         for _ in range(20):
